@@ -74,6 +74,16 @@ func runC05(l *core.Ledger) {
 		l.Check(bd.ok, "C05-M13", "gorums.(responseRouter).deliver/bounded-by-completion", token.NoPos, "deliveries wait exactly as long as the owning call runs", "deliveries to routers that can get several replies are not bounded by the completion of the owning call: "+bd.why)
 	}
 	c05M5(l, r)
+	// the id a reply echoes is read from the handler's own request envelope: one fresh envelope per
+	// handler start (C03-F5 re-run) - with metadata of its own in the reply, a reused envelope is the
+	// only thing a released handler's late reply can take the id from, and it holds the next request's
+	{
+		var sl *serverLoop
+		l.With(map[string]string{}, func() { sl = findServerLoop(l, r, "C03-F4") })
+		if sl != nil {
+			l.With(map[string]string{"C03-F5": "C05-M5"}, func() { c03F5(l, sl) })
+		}
+	}
 	c05M6(l, r, eps)
 	checkResponseProvenance(l, r, "C05-M7")
 }
